@@ -42,3 +42,59 @@ Proof.
   replace ((65 <=? c + 32) && (c + 32 <=? 90)) with false; [reflexivity|].
   symmetry. apply andb_false_iff. right. apply N.leb_gt. Lia.lia.
 Qed.
+
+(* ---------- blanks and comments at line level (Proofs/BlankLexP, BlankWalkP, BlankMatchP, BlankTopP) ---------- *)
+From CA Require Import Proofs.MatcherPermP Proofs.MatcherKeysP Proofs.BlankLexP Proofs.BlankWalkP Proofs.BlankMatchP Proofs.BlankTopP
+  Proofs.BlankCaseP.
+
+(* blank_equiv s s': the two lines are renderings of segment lists with the same plain characters and gaps at the same
+   places; only the content of each gap (blanks, tabs, CRs, block comments without inner ';') differs.  Decided by the
+   executable blank_equivb (re-tokenises both lines and compares the skeletons). *)
+Theorem C07_blank_equiv_decided : forall s s', blank_equivb s s' = true -> blank_equiv s s'.
+Proof. exact BlankTopP.blank_equivb_sound. Qed.
+
+(* Both matchers, any fuel, every parsed rule set: blank-equivalent lines give the same candidates (same rules, same nested
+   structure, same argument expressions) up to the byte positions of the argument spans and the excerpts -- provided
+   the expression parser's own fuel (200 per remaining character) is not exhausted on either line (expr_fuel_ok,
+   decidable by expr_fuel_okb). *)
+Theorem C07_blank_lines : forall A A' s s' t defs fuel indexed,
+  parse_defs t = Some defs -> blank_equiv_by A A' s s' -> expr_fuel_ok A -> expr_fuel_ok A' ->
+  map strip (match_instr_fuel defs fuel indexed (start s)) = map strip (match_instr_fuel defs fuel indexed (start s')).
+Proof. exact BlankTopP.C07_blank_invariance_parsed. Qed.
+
+(* the spans themselves correspond: both are the byte positions of the same segment boundary (relation mrel) *)
+Theorem C07_blank_lines_spans : forall A A' s s' defs fuel indexed,
+  blank_equiv_by A A' s s' -> Forall ruledef_ok defs -> expr_fuel_ok A -> expr_fuel_ok A' ->
+  Forall2 (mrel A A') (match_instr_fuel defs fuel indexed (start s)) (match_instr_fuel defs fuel indexed (start s')) /\
+  map strip (match_instr_fuel defs fuel indexed (start s)) = map strip (match_instr_fuel defs fuel indexed (start s')).
+Proof. exact BlankTopP.C07_blank_invariance. Qed.
+
+(* match_instr itself (its fuel grows with the length of the line): when the extra fuel is not needed on s' *)
+Theorem C07_blank_lines_match_instr : forall A A' s s' t defs indexed,
+  parse_defs t = Some defs -> blank_equiv_by A A' s s' -> expr_fuel_ok A -> expr_fuel_ok A' ->
+  match_instr_fuel defs (fuel_for indexed defs s') indexed (start s') = match_instr_fuel defs (fuel_for indexed defs s) indexed (start s') ->
+  map strip (match_instr indexed defs s) = map strip (match_instr indexed defs s').
+Proof. exact BlankTopP.C07_blank_invariance_match_instr. Qed.
+Theorem C07_match_instr_fuel : forall indexed defs s,
+  match_instr indexed defs s = match_instr_fuel defs (fuel_for indexed defs s) indexed (start s).
+Proof. exact BlankTopP.match_instr_fuel_eq. Qed.
+
+Example C07_blank_lines_nonvacuous :
+  parse_defs bx_rules = Some bx_defs /\ blank_equivb bx_s bx_s' = true /\ blank_equiv_by bx_A bx_A' bx_s bx_s' /\
+  expr_fuel_ok bx_A /\ expr_fuel_ok bx_A'.
+Proof. exact BlankTopP.bx_hypotheses. Qed.
+
+(* letter case at line level: a run of literal pattern parts ends at the same segment on two lines that differ only in
+   the ASCII case of plain characters ... *)
+Theorem C07_case_literal_run : forall A A', Forall seg_ok A -> Forall seg_ok A' -> Forall2 seg_relc A A' ->
+  forall lits i j, (i <= j)%nat -> (j <= length A)%nat -> Forall part_ok lits ->
+  both A A' (run_lits lits (W A i j)) (run_lits lits (W A' i j)) i j.
+Proof. exact BlankCaseP.C07_case_literal_run. Qed.
+(* ... and recasing characters consumed by the LEADING literal run of a rule leaves its candidates identical *)
+Theorem C07_case_leading_literals : forall P P' T defs r lits rest f needs sf,
+  Forall seg_ok (P ++ T) -> Forall seg_ok (P' ++ T) -> Forall2 seg_relc P P' ->
+  forallb is_lit lits = true -> Forall part_ok lits ->
+  (forall i1, run_lits lits (start (render (P ++ T))) = Some (W (P ++ T) i1 (length (P ++ T))) -> (length P <= i1)%nat) ->
+  map fst (match_with_rule (length lits + f) defs r (lits ++ rest) (start (render (P ++ T))) needs sf) =
+  map fst (match_with_rule (length lits + f) defs r (lits ++ rest) (start (render (P' ++ T))) needs sf).
+Proof. exact BlankCaseP.C07_case_leading_literals. Qed.
